@@ -135,6 +135,15 @@ def sampleNOk (w n : Nat) (masks : List (Nat → Bool)) (sel : List Nat) : Bool 
   (sampleNReplace w n masks ||
     (List.range masks.length).all (fun b => nodupB (sampleNRows masks.length n b sel)))
 
+/-- `FJSPEnv.select_start_nodes` (inherited by `JSSPEnv`): delegates to `sample_n_random_actions(td, num_starts)`
+(`Params.fjspStartsDelegate`); a direct `torch.multinomial(mask, k, replacement=True)` is only known to return
+feasible actions, never distinct ones -/
+def fjspStartsOk (w n : Nat) (masks : List (Nat → Bool)) (sel : List Nat) : Bool :=
+  if Params.fjspStartsDelegate then sampleNOk w n masks sel
+  else sel.length == n * masks.length &&
+    (List.range masks.length).all (fun b =>
+      (instStarts masks.length n b sel).all (fun s => decide (s < w) && (masks.getD b (fun _ => false)) s))
+
 /-- `(lo, m)` of the forced starts a decoding hook produces: `DecodingStrategy.pre_decoder_hook` (multistart) and
 `BeamSearch.pre_decoder_hook` call the ENV METHOD `env.select_start_nodes(td, num_starts=…)` (so the overrides
 of PDP / MTVRP / FLP / MCP apply); calling the generic helper instead would bypass them -/
